@@ -24,6 +24,10 @@ enum PeerPlan {
     MidMessage(usize, usize),
     /// as MidMessage but close the socket afterwards
     CloseAt(usize, usize),
+    /// as CloseAt, but the peer only shuts down its sending direction and then reads until
+    /// end-of-stream: the daemon's read ends in a request error (clean or partial-message
+    /// disconnect), after which it has to close its end
+    HalfCloseAt(usize, usize),
     /// send a reply-bearing request and close without reading the reply
     CloseWithReplyPending(usize),
     /// send a malformed request (daemon must stop serving and close)
@@ -37,7 +41,7 @@ pub fn def() -> PropDef {
         quick_runs: 30000,
         thorough_runs: 2_000_000,
         level: "exploration",
-        rule: "a live daemon; index%4: 3 = the application drops a connected daemon without wait() while the peer (idle / after k requests / mid-message) keeps its end open: daemon thread and every worker must terminate and the peer must read EOF; 0 = 1-3 shutdown-caller tasks (each calling once or twice) start after 0..40 scheduler steps, with the owner either already blocked in wait() or calling it after they returned, while a raw peer follows a drawn plan (idle / k complete requests / stopped after b bytes of a request, b enumerated over every offset of GET_VRING_BASE by index / closed at offset b / closed with a reply pending); after they returned wait() must return Ok, the peer must read EOF and a second start() on the same listener must serve a request; 1 = no shutdown request: the peer disconnects at offset b (enumerated) or with a reply pending or sends a malformed request: wait() must return Err, the peer must read EOF after a request error; 2 = serve(): must return Ok for clean and partial-header disconnects and raise every worker's exit event; always: dropping the daemon ends all worker tasks; forced switches at the daemon-thread and shutdown hold points; hang = the scheduler's deadlock detector; non-trivial = a scheduling choice existed",
+        rule: "a live daemon; index%4: 3 = the application drops a connected daemon without wait() while the peer (idle / after k requests / mid-message) keeps its end open: daemon thread and every worker must terminate and the peer must read EOF; 0 = 1-3 shutdown-caller tasks (each calling once or twice) start after 0..40 scheduler steps, with the owner either already blocked in wait() or calling it after they returned, while a raw peer follows a drawn plan (idle / k complete requests / stopped after b bytes of a request, b enumerated over every offset of GET_VRING_BASE by index / closed at offset b / closed with a reply pending); after they returned wait() must return Ok, the peer must read EOF and a second start() on the same listener must serve a request; 1 = no shutdown request: the peer disconnects at offset b (enumerated) or with a reply pending, shuts down only its sending direction at offset b and reads on, or sends a malformed request: wait() must return Err, the peer must read EOF after a request error (malformed request, half-close), before wait() is called; 2 = serve(): must return Ok for clean and partial-header disconnects and raise every worker's exit event; always: dropping the daemon ends all worker tasks; forced switches at the daemon-thread and shutdown hold points; hang = the scheduler's deadlock detector; non-trivial = a scheduling choice existed",
         assumptions: ASSUME,
         real: REAL_D,
         stubs: STUB_D,
@@ -79,6 +83,7 @@ fn peer_run(sock: UnixStream, plan: PeerPlan, expect_eof: bool, out: Arc<Mutex<V
         PeerPlan::Requests(k)
         | PeerPlan::MidMessage(k, _)
         | PeerPlan::CloseAt(k, _)
+        | PeerPlan::HalfCloseAt(k, _)
         | PeerPlan::CloseWithReplyPending(k)
         | PeerPlan::BadRequest(k) => *k,
     };
@@ -101,7 +106,7 @@ fn peer_run(sock: UnixStream, plan: PeerPlan, expect_eof: bool, out: Arc<Mutex<V
         }
     }
     match &plan {
-        PeerPlan::MidMessage(_, cut) | PeerPlan::CloseAt(_, cut) => {
+        PeerPlan::MidMessage(_, cut) | PeerPlan::CloseAt(_, cut) | PeerPlan::HalfCloseAt(_, cut) => {
             let m = FReq::GetVringBase { idx: 1 }.wire(false);
             let c = (*cut).min(m.len());
             if c > 0 {
@@ -110,6 +115,11 @@ fn peer_run(sock: UnixStream, plan: PeerPlan, expect_eof: bool, out: Arc<Mutex<V
             if matches!(plan, PeerPlan::CloseAt(..)) {
                 sched::point("peer.close");
                 sock = None;
+            }
+            if matches!(plan, PeerPlan::HalfCloseAt(..)) {
+                sched::point("peer.close");
+                // SAFETY: shutdown on a socket this task owns.
+                unsafe { libc::shutdown(fd, libc::SHUT_WR) };
             }
         }
         PeerPlan::CloseWithReplyPending(_) => {
@@ -190,9 +200,10 @@ fn run_v<V: VringT<GM<()>> + Clone + Send + Sync + 'static>(sim: &Sim, cfg: &Run
                     key = Some(21 + sweep);
                     PeerPlan::CloseAt(k, sweep as usize)
                 } else {
-                    match t.draw(3) {
+                    match t.draw(5) {
                         0 => PeerPlan::CloseAt(k, t.draw(21) as usize),
                         1 => PeerPlan::CloseWithReplyPending(k),
+                        2 | 3 => PeerPlan::HalfCloseAt(k, t.draw(21) as usize),
                         _ => PeerPlan::BadRequest(k),
                     }
                 }
@@ -291,7 +302,7 @@ fn run_v<V: VringT<GM<()>> + Clone + Send + Sync + 'static>(sim: &Sim, cfg: &Run
     let handle = handle.unwrap();
     let po = peer_out.clone();
     let plan2 = plan.clone();
-    let expect_eof = mode == 0 || mode == 3 || matches!(plan, PeerPlan::BadRequest(_));
+    let expect_eof = mode == 0 || mode == 3 || matches!(plan, PeerPlan::BadRequest(_) | PeerPlan::HalfCloseAt(..));
     // mode 3: the peer keeps its end open after it saw end-of-stream, until the harness lets go
     let release = Arc::new(std::sync::atomic::AtomicBool::new(mode != 3));
     let rel2 = release.clone();
@@ -414,7 +425,7 @@ fn run_v<V: VringT<GM<()>> + Clone + Send + Sync + 'static>(sim: &Sim, cfg: &Run
         let r = daemon.wait();
         match (&plan, &r) {
             (PeerPlan::BadRequest(_), Ok(())) => viol("request_error_reported_as_ok", String::new(), "wait() returned Ok although the daemon stopped on a malformed request".into()),
-            (PeerPlan::BadRequest(_), Err(_)) => {
+            (PeerPlan::BadRequest(_) | PeerPlan::HalfCloseAt(..), Err(_)) => {
                 let po = peer_out.lock().unwrap().clone();
                 if !po.iter().any(|s| s.starts_with("eof")) {
                     viol("peer_no_eof_after_request_error", String::new(), format!("daemon stopped serving on a request error but the peer saw no end-of-stream: {po:?}"));
